@@ -2,6 +2,8 @@
 //! `cases.rs`; every shape parameter below is a literal there, every argument of the operation
 //! under test is chosen by the solver.
 
+#[cfg(not(kani))]
+use crate::nk as kani;
 use crate::model::{self, ModelStr, MCAP};
 use crate::ops::{self, *};
 use crate::shim;
